@@ -16,6 +16,7 @@ import (
 	"sort"
 	"strconv"
 	"strings"
+	"sync"
 	"sync/atomic"
 	"time"
 
@@ -65,13 +66,13 @@ func (m UpMeta) coq() string {
 }
 
 type Patch struct {
-	Bad   bool        `json:"bad,omitempty"`
-	CType *string     `json:"ctype,omitempty"`
-	Meta  [][2]string `json:"meta,omitempty"`
-	HasMeta bool      `json:"hasmeta,omitempty"`
-	Gen   *int64      `json:"gen,omitempty"`
-	Md5   *string     `json:"md5,omitempty"`
-	Metagen *int64    `json:"metagen,omitempty"`
+	Bad     bool        `json:"bad,omitempty"`
+	CType   *string     `json:"ctype,omitempty"`
+	Meta    [][2]string `json:"meta,omitempty"`
+	HasMeta bool        `json:"hasmeta,omitempty"`
+	Gen     *int64      `json:"gen,omitempty"`
+	Md5     *string     `json:"md5,omitempty"`
+	Metagen *int64      `json:"metagen,omitempty"`
 }
 
 func (p Patch) coq() string {
@@ -270,8 +271,9 @@ func rankGens(rs []Resp) map[int64]int {
 
 type Emu struct {
 	wedged atomic.Bool
-	g   *gcsemu.GcsEmu
-	mux *http.ServeMux
+	g      *gcsemu.GcsEmu
+	mux    *http.ServeMux
+	sent   sync.Map // base64 MD5 of every payload this harness has sent (see viewOf)
 }
 
 func NewEmu(store gcsemu.Store) *Emu {
@@ -308,7 +310,19 @@ func esc(s string) string {
 	return sb.String()
 }
 
+// quietG: goroutines that are, right now, reading on behalf of the harness itself (canonicalising a
+// response, resolving a symbolic precondition): such reads pass the handlers' yield points without
+// parking, they are not steps of the scheduled request
+var quietG sync.Map
+
+func quietly() func() {
+	g := goid()
+	quietG.Store(g, true)
+	return func() { quietG.Delete(g) }
+}
+
 func (e *Emu) rawMeta(b, n string) *storage.Object {
+	defer quietly()()
 	req := httptest.NewRequest("GET", "http://emu/storage/v1/b/"+esc(b)+"/o/"+esc(n), nil)
 	rec, p := e.do(req)
 	if p != "" || rec.Code != 200 {
@@ -322,6 +336,7 @@ func (e *Emu) rawMeta(b, n string) *storage.Object {
 }
 
 func (e *Emu) rawMedia(b, n string) ([]byte, bool) {
+	defer quietly()()
 	req := httptest.NewRequest("GET", "http://emu/storage/v1/b/"+esc(b)+"/o/"+esc(n)+"?alt=media", nil)
 	req.Header.Set("Accept-Encoding", "gzip")
 	rec, p := e.do(req)
@@ -368,6 +383,13 @@ func (e *Emu) viewOf(o *storage.Object) *View {
 		if data, ok := e.rawMedia(o.Bucket, o.Name); ok {
 			sum := md5.Sum(data)
 			if base64.StdEncoding.EncodeToString(sum[:]) == o.Md5Hash {
+				v.Md5 = 1
+			}
+		}
+		if v.Md5 == 2 {
+			// in an interleaved execution the object may have been replaced since this response was
+			// built: a hash of some payload sent earlier is the hash of (then) content, not a foreign one
+			if _, ok := e.sent.Load(o.Md5Hash); ok {
 				v.Md5 = 1
 			}
 		}
@@ -494,6 +516,10 @@ func (e *Emu) Exec(r Req) (out Resp) {
 }
 
 func (e *Emu) exec(r Req, out *Resp) (*httptest.ResponseRecorder, string) {
+	if len(r.Data) > 0 || r.Kind == "upload_media" || r.Kind == "upload_multipart" {
+		sum := md5.Sum(r.Data)
+		e.sent.Store(base64.StdEncoding.EncodeToString(sum[:]), true)
+	}
 	base := "http://emu/storage/v1/b/"
 	if r.UrlForm == "b" {
 		base = "http://emu/b/"
